@@ -9,3 +9,4 @@ import LC.Props.C03WF
 #print axioms LC.V2Match.match_total_lines
 #print axioms LC.V2Match.match_no_panic
 #print axioms LC.V2Match.prepare_wf
+#print axioms LC.V2Match.matchLess_confidence_first
